@@ -1,6 +1,12 @@
-SPECIFICATION TraceSpec
-CONSTANTS MaxSeg = 0
+SPECIFICATION MCSpec
+CONSTANTS MaxSeg = 3
+          NBlocks = 5
+          NTx = 2
+          MaxFork = 2
+          Schemes = {"hash", "path"}
+          Depth = 0
+          Trees <- GenTrees
 INVARIANTS TypeOK DataClosed CanonHasHeads CanonLinkedToHead CanonLinkedPending CanonEndsAtHeadPending HeadOrder HeadStateAvail LookupCompletePending LookupSoundPending CacheCoherentPending
 PROPERTIES EventsDescribeSwitchPending AddedLogsCanonical RemovedWereCanonical HeadEventIsHead
-POSTCONDITION TraceAccepted
+VIEW View
 CHECK_DEADLOCK FALSE
